@@ -16,7 +16,7 @@ RULE = (
     "around barriers, overlapping triples); (c) qft then iqft on every qubit list of length <=5; unitaries compared exactly; non-trivial = both operands "
     "have >=1 gate (a), >=1 pair cancels (b), list length >=2 (c); distinct by case text"
 )
-DECIDING = ["append_circuit_checked", "add_checked", "iadd_checked", "repeat_checked", "copy_checked", "remove_identities_checked", "pairs_cancelled", "qft_checked"]
+DECIDING = ["enhanced_operands", "append_circuit_checked", "add_checked", "iadd_checked", "repeat_checked", "copy_checked", "remove_identities_checked", "pairs_cancelled", "qft_checked"]
 ASSUMPTIONS = ["own numpy unitary simulator; qubit i = bit i", "repeat(0) is outside the claim (undefined by the docstring)",
                "remove_identities is exercised with re-appended identical gate objects, the only pairs it can recognise"]
 POOL = ["x", "y", "z", "h", "s", "t", "cx", "cz", "ccx", "mcx", "swap", "cp", "p", "barrier"]
@@ -35,7 +35,7 @@ def cases(tier, seed):
             qubits[rng.randrange(nb)] = na - 1 if (na - 1) not in qubits else qubits[0]
         if len(set(qubits)) != nb:
             qubits = rng.sample(range(na), nb)
-        yield {"kind": "compose", "a": a, "b": b, "qubits": qubits, "n": rng.randint(1, 5)}
+        yield {"kind": "compose", "a": a, "b": b, "qubits": qubits, "n": rng.randint(1, 5), "enh": i % 3 == 0}
     for i in range(n):
         yield {"kind": "remid", "spec": remid_spec(rng), "nq": rng.randint(1, 4)}
     for c in REMID_CORPUS:
@@ -83,7 +83,12 @@ def remid_spec(rng):
 
 
 def _sig(qc):
-    return ([(type(g).__name__, tuple(w), p) for g, w, p in qc.gates], dict(qc.qubit_map), qc.num_qubits)
+    base = ([(type(g).__name__, tuple(w), p) for g, w, p in qc.gates], dict(qc.qubit_map), qc.num_qubits)
+    if hasattr(qc, "ancilla_lst"):
+        # the ancilla bookkeeping of an enhanced circuit is part of its observable state (it decides what later
+        # get_free_ancilla / uncompute calls do)
+        base += (sorted(qc.ancilla_lst), sorted(qc.free_ancilla_lst), sorted(qc.marked_ancillas), [(type(g).__name__, tuple(w), p) for g, w, p in qc.gates_computed])
+    return base
 
 
 def _U(qc):
@@ -120,11 +125,20 @@ def _mutate(res):
         res.gates[0:1] = []
     for g, w, p in res.gates:
         if len(w) >= 1:
-            w[0] = (w[0] + 1) % max(1, res.num_qubits)
-            if len(set(w)) != len(w):
+            free = [q for q in range(res.num_qubits) if q not in w]
+            if free:
+                w[0] = free[(w[0] + 1) % len(free)]
+            else:
                 w.reverse()
             break
     res.add_qubit("zz")
+    if hasattr(res, "ancilla_lst"):
+        res.add_ancilla()
+        k = res.get_free_ancilla()
+        res.cx(0, k)
+        res.mark_ancilla(k)
+        res.uncompute()
+        res.get_free_ancilla()
 
 
 def check(case):
@@ -133,7 +147,15 @@ def check(case):
 
 def check_compose(case):
     fails, cnt = [], {}
-    a, b, qubits, n = GC.build(case["a"], name="a"), GC.build(case["b"], name="b"), case["qubits"], case["n"]
+    enh = bool(case.get("enh"))
+    a, b, qubits, n = GC.build(case["a"], enhanced=enh, name="a"), GC.build(case["b"], name="b"), case["qubits"], case["n"]
+    if enh:
+        # an enhanced circuit in mid-compilation state: one ancilla computed and marked, one free
+        k1 = a.add_ancilla(is_free=False)
+        a.cx(0, k1)
+        a.mark_ancilla(k1)
+        a.add_ancilla()
+        cnt["enhanced_operands"] = 1
     na = a.num_qubits
     Ua, Ub = _U(a), _U(b)
     sa, sb = _sig(a), _sig(b)
@@ -202,6 +224,14 @@ def check_compose(case):
                 fail("copy", f"copy(vanilla={vanilla}) is not an equal circuit")
             if not vanilla and _sig(r) != sa:
                 fail("copy", "copy() differs from its source")
+            if enh and not vanilla:
+                # an independent equal circuit behaves like its source from here on
+                r2, a2 = a.copy(), copy.deepcopy(a)
+                u1, u2 = r2.uncompute(), a2.uncompute()
+                k1, k2 = r2.get_free_ancilla(), a2.get_free_ancilla()
+                if (u1, k1, _sig(r2)) != (u2, k2, _sig(a2)):
+                    fail("copy_behaviour", f"after uncompute()/get_free_ancilla() the copy is {(u1, k1)} and the source {(u2, k2)}")
+                operands_intact("copy_then_uncompute")
             if vanilla and dict(r.qubit_map) != {f"q{i}": i for i in range(na)}:
                 fail("copy_vanilla_map", f"vanilla copy has qubit_map {r.qubit_map}")
             _mutate(r)
